@@ -17,10 +17,11 @@ CONSTANTS
   D_ExceptionsIgnoredWithRules = TRUE
   M_CapPerSource = TRUE
   M_InvertAfterShortcut = TRUE
+  M_LowerCopies = TRUE
   MSyms = {1, 2}
   MDataMax = 3
   MValMax = 2
   MCi = {FALSE}
   MPairLens = {1, 2}
-INVARIANTS TypeOK RefusedOnlyIf CutIsPrefix WithinLimitUntouched MatchAgrees DisabledNeverDrops ExceptionNeverDrops SpamOnlyIfBanned BanOnlyAfterThreshold UnbanWithin VerdictDetermined
+INVARIANTS TypeOK RefusedOnlyIf CutIsPrefix WithinLimitUntouched MatchAgrees DataUnchanged DisabledNeverDrops ExceptionNeverDrops SpamOnlyIfBanned BanOnlyAfterThreshold UnbanWithin VerdictDetermined
 CHECK_DEADLOCK FALSE
